@@ -1,8 +1,10 @@
 package main
 
 import (
+	"fmt"
 	"go/token"
 	"go/types"
+	"sort"
 	"strings"
 
 	"golang.org/x/tools/go/ssa"
@@ -159,3 +161,145 @@ func shortAll(pkgs []string) []string {
 }
 
 var _ = types.Typ
+
+// ---- R14b: failures that are propagated stay propagated --------------------------------------------------------
+//
+// errorPropagations lists, for the functions of the given packages that return an error, the calls after whose failure
+// (err != nil) no path reaches a return that may report success: the failure is propagated. The instances found on the
+// reviewed tree are frozen in propagatedFailures; the rule checks that each still propagates.
+type propagation struct {
+	Fn     *ssa.Function
+	Call   ssa.CallInstruction
+	Callee string
+	Path   []ssa.Instruction // nil when it propagates
+}
+
+func (e *Engine) errorPropagations(pkgs ...string) []propagation {
+	var out []propagation
+	for _, fn := range e.funcsInPkg(pkgs...) {
+		res := fn.Signature.Results()
+		if res.Len() == 0 || !isErrorType(res.At(res.Len()-1).Type()) {
+			continue
+		}
+		AllInstrs(fn, func(in ssa.Instruction) {
+			ci, ok := in.(ssa.CallInstruction)
+			if !ok || ci.Value() == nil {
+				return
+			}
+			if _, isDefer := in.(*ssa.Defer); isDefer {
+				return
+			}
+			var t types.Type = ci.Value().Type()
+			if tup, ok := t.(*types.Tuple); ok {
+				if tup.Len() == 0 {
+					return
+				}
+				t = tup.At(tup.Len() - 1).Type()
+			}
+			if !isErrorType(t) {
+				return
+			}
+			name := "?"
+			if o := callObj(ci.Common()); o != nil {
+				name = o.Name()
+				if sig, ok := o.Type().(*types.Signature); ok && sig.Recv() != nil {
+					if n := namedOf(sig.Recv().Type()); n != nil {
+						name = n.Obj().Name() + "." + name
+					}
+				} else if o.Pkg() != nil {
+					name = o.Pkg().Name() + "." + name
+				}
+			}
+			failed := func(cond ssa.Value) (bool, bool) {
+				k, v := callSucceeded(ci.Value())(cond)
+				return k, !v
+			}
+			p := FindPath(PathQuery{Fn: fn, From: in, Assume: failed, Target: func(x ssa.Instruction) bool {
+				ret, ok := x.(*ssa.Return)
+				if !ok {
+					return false
+				}
+				v := retValue(ret, len(ret.Results)-1)
+				derived := false
+				Origins(v, func(o ssa.Value) bool {
+					if isErrOf(o, ci.Value()) {
+						derived = true
+					}
+					return derived
+				})
+				return !derived && e.ClassifyReturn(ret) != retNonNilErr
+			}})
+			out = append(out, propagation{fn, ci, name, p})
+		})
+	}
+	return out
+}
+
+func isErrorConstructor(callee string) bool {
+	for _, suf := range []string{"fmt.Errorf", "errors.New", "errors.Join", "Error", "Errorf"} {
+		if callee == suf || strings.HasSuffix(callee, "."+suf) || strings.HasSuffix(callee, "Error") {
+			return true
+		}
+	}
+	return false
+}
+
+func propagationKey(pr propagation) string {
+	return FnName(TopParent(pr.Fn)) + " <- " + pr.Callee
+}
+
+// checkErrorPropagation (R14b): for the (function <- callee) pairs frozen in propagatedFailures — confirmed on the
+// reviewed tree: after that call fails, the function cannot return success — every present call site of a pair all of
+// whose sites propagated still propagates, and a pair with mixed sites has at least as many propagating sites as
+// before. A pair whose calls have disappeared is not an alarm (the code was restructured); the vacuity guard watches
+// the total.
+func checkErrorPropagation(e *Engine, r *Report, rule string, pkgs ...string) {
+	type acc struct {
+		ok, total int
+		bad       []propagation
+	}
+	cur := map[string]*acc{}
+	for _, pr := range e.errorPropagations(pkgs...) {
+		if isErrorConstructor(pr.Callee) {
+			continue
+		}
+		k := propagationKey(pr)
+		if _, frozen := propagatedFailures[k]; !frozen {
+			continue
+		}
+		a := cur[k]
+		if a == nil {
+			a = &acc{}
+			cur[k] = a
+		}
+		a.total++
+		if pr.Path == nil {
+			a.ok++
+		} else {
+			a.bad = append(a.bad, pr)
+		}
+	}
+	n := 0
+	keys := make([]string, 0, len(cur))
+	for k := range cur {
+		keys = append(keys, k)
+	}
+	sort.Strings(keys)
+	for _, k := range keys {
+		a := cur[k]
+		want := propagatedFailures[k]
+		n += a.ok
+		if want[0] == want[1] { // all sites propagated when reviewed
+			for _, pr := range a.bad {
+				r.Check("R14:failure-propagated@"+k, rule, "a failure of this call makes the function fail (as on the reviewed tree): no path after `err != nil` reaches a return that reports success", e.InstrPos(pr.Call), pr.Fn, false,
+					"after the call failed: "+e.pathString(pr.Path), true)
+			}
+		} else if a.ok < want[0] && a.total >= want[1] {
+			pr := a.bad[0]
+			r.Check("R14:failure-propagated@"+k, rule, "as many of these calls propagate their failure as on the reviewed tree", e.InstrPos(pr.Call), pr.Fn, false,
+				fmt.Sprintf("%d of %d sites propagate (reviewed: %d of %d); e.g. %s", a.ok, a.total, want[0], want[1], e.pathString(pr.Path)), true)
+		}
+	}
+	r.Check("R14:failure-propagation-scanned@"+strings.Join(shortAll(pkgs), "+"), rule, "calls whose failure must fail the caller re-examined", "-", nil, true, fmt.Sprintf("%d propagating sites of %d frozen pairs present", n, len(cur)), false)
+	r.MinInstances("propagating call sites in "+strings.Join(shortAll(pkgs), "+"), n, 3)
+}
